@@ -317,6 +317,37 @@ func c12(r *Report, s *Sem) {
 			}})
 		r.Check(R5, "func "+fnName(fn)+" / "+m.op+" error is returned", p.instrPos(op), okErr, "a failed or cut operation must surface as an error, never as success")
 		okEOF := false
+		isEOFTest := func(v ssa.Value) bool {
+			call, _ := callOf(v)
+			if call == nil {
+				return false
+			}
+			g := call.Call.StaticCallee()
+			if g == nil || g.Pkg == nil || g.Pkg.Pkg.Path() != "errors" || g.Name() != "Is" {
+				return false
+			}
+			gl, ok := pathOf(call.Call.Args[1]).Root.(*ssa.Global)
+			return ok && gl.Name() == "EOF"
+		}
+		for _, st := range fieldStores([]*ssa.Function{fn}, eofF) {
+			// eof = eof || errors.Is(err, io.EOF): the stored value is the test itself, possibly or-ed with the old flag
+			hasTest, onlyTrueOrOld := false, true
+			for _, l := range leaves(st.Val) {
+				l = stripConv(l)
+				switch {
+				case isEOFTest(l):
+					hasTest = true
+				case pathOf(l).Last() == eofF:
+				default:
+					if c, isC := l.(*ssa.Const); !isC || c.Value == nil || c.Value.String() != "true" {
+						onlyTrueOrOld = false
+					}
+				}
+			}
+			if hasTest && onlyTrueOrOld {
+				okEOF = true
+			}
+		}
 		for _, st := range fieldStores([]*ssa.Function{fn}, eofF) {
 			if condGuard(st.Block(), func(cd Cond) bool {
 				if cd.Op != token.ILLEGAL || !cd.True {
@@ -542,6 +573,40 @@ func c16(r *Report, s *Sem) {
 	defOK := false
 	for _, fn := range p.LimeFuncs() {
 		for _, st := range fieldStores([]*ssa.Function{fn}, rlF) {
+			// ReadLimit = f(ReadLimit) with f = "the default when zero": a phi of the positive constant, arriving on the
+			// edge `ReadLimit == 0`, and the configured value itself
+			if ph, isPhi := stripConv(st.Val).(*ssa.Phi); isPhi {
+				hasDefault, othersOld := false, true
+				for i, e := range ph.Edges {
+					if k, isConst := constInt(stripConv(e)); isConst && k > 0 {
+						if condGuardEdge(ph.Block().Preds[i], ph.Block(), func(cd Cond) bool {
+							if cd.Op != token.EQL {
+								return false
+							}
+							x, y := cd.X, cd.Y
+							if _, isC := stripConv(x).(*ssa.Const); isC {
+								x, y = y, x
+							}
+							kv, ok := constInt(stripConv(y))
+							return ok && kv == 0 && pathOf(x).Last() == rlF
+						}) {
+							hasDefault = true
+							continue
+						}
+					}
+					if pathOf(e).Last() != rlF {
+						othersOld = false
+					}
+				}
+				if hasDefault && othersOld {
+					eachCall(fn, func(c ssa.CallInstruction) {
+						if g := staticCallee(c); g != nil && g.Name() == "NewDecoder" && !reachesInstr(c, st) {
+							defOK = true
+						}
+					})
+				}
+				continue
+			}
 			k, isConst := constInt(stripConv(st.Val))
 			if !isConst || k <= 0 {
 				continue
